@@ -231,6 +231,77 @@ def check(ctx):
         region = g.reachable_from([t for t, _ in g.succ[y.id]])
         ctx.ob('R08.4', 'trash-list reports %s on stderr' % val, bool(errs), node=y,
                message='trash-list ignores the event %s silently' % val)
+    # every refutation of one of the three facts for $topdir/.Trash (of an existing
+    # $topdir/.Trash/$uid) is reported before the scan goes on: no consistent way from
+    # the refuting branch to the next evaluation of the same test, or to the end, that
+    # avoids stderr -- whatever else is found on the volume
+    errs_all = [o.id for o in b.nodes('output') if any(
+        isinstance(s_, ExtRef) and s_.qualname == 'sys.stderr'
+        for s_ in flat(o.data['stream']))]
+    tops = {}
+    for e in b.effects():
+        p = path_role(e)
+        for a in (flat(p) if p is not None else []):
+            i = match_pbc(a)
+            D = info_entry(i if i is not None else a)
+            if D is None:
+                D = files_entry(a)
+            if D is not None and dir_kind(D) == '$topdir/.Trash/$uid':
+                tops[cid(D)] = D
+    refuting = []
+    for D in tops.values():
+        pids = parent_ids_of(D)
+        for n in b.nodes('assume'):
+            if n.stack and not any(n.stack[:len(st)] == st or st[:len(n.stack)] == n.stack
+                                   for st in listing_stacks):
+                continue
+            lost = facts_of(b, n.data['cond'], not n.data['pol'], pids)
+            if lost and not facts_of(b, n.data['cond'], n.data['pol'], pids):
+                refuting.append((n, sorted(lost)))
+    # a refuted conjunct of "isdir(p) and sticky(p)" inside a predicate helper is tested
+    # again as the helper's verdict: the verdict's refuting branch is the one checked
+    def all_operands(t, depth=0):
+        t = strip(t)
+        out = []
+        if isinstance(t, BoolT) and depth < 6:
+            for v in t.values:
+                out.append(cid(v))
+                out.extend(all_operands(v, depth + 1))
+        elif isinstance(t, Phi) and depth < 6:
+            for a in t.terms():
+                out.extend(all_operands(a, depth + 1))
+        return out
+    compound = set()
+    for m in b.nodes('assume'):
+        compound.update(all_operands(unwrap_not(m.data['cond'], m.data['pol'])[0]))
+    refuting = [(n, lost) for n, lost in refuting
+                if cid(unwrap_not(n.data['cond'], n.data['pol'])[0]) not in compound]
+    ctx.require(refuting or not tops, 'R08.4: no branch refutes the facts about $topdir/.Trash '
+                                      'in trash-list')
+    seen_ref = set()
+    for n, lost in refuting:
+        if n.id in seen_ref:
+            continue
+        seen_ref.add(n.id)
+        again = [x.id for x in b.nodes('assume')
+                 if (x.file, x.line, x.stack) == (n.file, n.line, n.stack)
+                 and x.data.get('test_src') == n.data.get('test_src')]
+        probes = set()
+        for x in again:
+            for t in walk(g.n(x).data['cond']):
+                if isinstance(t, Call) and t.node is not None and \
+                        g.n(t.node).kind in ('probe', 'effect', 'ext'):
+                    probes.add(t.node)
+        silent = None
+        for tgt in sorted(probes) + [g.exit]:
+            silent = feasible_path(b, [n.id], tgt, blocked=errs_all)
+            if silent is not None:
+                break
+        ctx.ob('R08.4', 'a $topdir/.Trash found insecure is reported on stderr before the '
+                        'scan goes on', silent is None, node=n,
+               message='trash-list can skip a $topdir/.Trash/$uid whose parent fails "%s" '
+                       'without saying so on stderr (the report depends on something else '
+                       'than the insecurity)' % '/'.join(lost))
 
 
 def all_candidate_parent_ids(b):
